@@ -766,6 +766,16 @@ def extremum(it, args, kw, want_max):
             return srange_extremum(it, src, kw.get("key"), want_max)
         if isinstance(src, SSeq):
             return sseq_extremum(it, src, kw.get("key"), want_max)
+        if isinstance(src, MappedSeq):
+            from .absbin import is_valueof
+            if want_max and is_valueof(src.f) and src.seq.kind == "item" and "key" not in kw:
+                q = src.seq
+                if not it.branch(q.lo < q.hi):
+                    raise RaiseSig(ExcV("ValueError", ("max() arg is an empty sequence",)))
+                it.trust("max(map(valueof, s)) = rmax(s)  (definition of rmax: an attained upper bound of the values)")
+                it.assume(L.rmax_facts(q.arr, q.lo, q.hi))
+                return SV(L.rmax(q.arr, q.lo, q.hi))
+            raise Unsupported("min/max of map(f, symbolic sequence)")
         elems = iterate(it, src)
         unordered = isinstance(src, PSet)
     if len(args) > 1:
